@@ -312,6 +312,18 @@ C_FRAGMENTS = [
         "funcs": [("mu_f", ["i32"])],
     },
     {
+        "id": "structparam",
+        "src": "struct sp_S { int a; char b; };\nint sp_use(struct sp_S s) { return s.a + s.b; }\n"
+        "int sp_run(int a) { struct sp_S t; t.a = a; t.b = {K1}; return sp_use(t) + {K0}; }\n",
+        "funcs": [("sp_run", ["i32"])],
+    },
+    {
+        "id": "staticproc",
+        "src": "static int sv_acc;\nstatic void sv_note(int a) { sv_acc += a; }\nstatic int sv_get(void) { return sv_acc; }\n"
+        "int sv_run(int a) { sv_note(a); sv_note({K0}); return sv_get(); }\n",
+        "funcs": [("sv_run", ["i32"])],
+    },
+    {
         "id": "asm",
         "src": "int as_f(int a) { asm(\"nop\"); return a + {K0}; }\n",
         "funcs": [("as_f", ["i32"])],
